@@ -415,6 +415,17 @@ def _hist_exec(prog, stack, out):
                 _hist_exec(st[2], stack + [st[1]], out)
 
 
+def _hist_flat(prog, cur, default):
+    """Flattened BuildOp tokens (`S n` on entering / leaving a block, `B` per construction)."""
+    out = []
+    for st in prog:
+        if st[0] == "build":
+            out.append("B")
+        else:
+            out += ["S", str(st[1])] + _hist_flat(st[2], st[1], default) + ["S", str(cur)]
+    return out
+
+
 def _hist_show(prog):
     return "; ".join(f"build {st[1]}" if st[0] == "build" else f"with num_gauss_hermite_locs({st[1]}): [{_hist_show(st[2])}]"
                      for st in prog)
@@ -466,10 +477,14 @@ def check_construction_histories(ctx, want_driver=True, only=None):
         if only is not None:
             progs = [p for p in progs if _hist_show(p) == only] or progs
         jobs, req = [], []
+        dflt = gpytorch.settings.num_gauss_hermite_locs.value()
+        model_lines, model_want = [], []
         for prog in progs:
             objs = []
             _hist_exec(prog, [], objs)
             text = _hist_show(prog)
+            model_lines.append(f"N {dflt} " + " ".join(_hist_flat(prog, dflt, dflt)))
+            model_want.append((text, [int((o if k_ == "GHQ" else o.quadrature).locations.numel()) for k_, _, o, _ in objs]))
             # use the objects in a different order than they were built, and under yet another active setting
             order = list(range(len(objs)))
             rng.shuffle(order)
@@ -510,7 +525,14 @@ def check_construction_histories(ctx, want_driver=True, only=None):
                 jobs.append({"prog": text, "idx": idx, "kind": kind, "N": n_exp, "where": where, "m": m, "v": v_eff, "got": got,
                              "extra": extra, "stored": int(q.locations.numel()), "num_locs": q.num_locs, "used_under": use_n})
                 req.append(f"M {C.rat_str(m)} {C.rat_str(v_eff)} {2 * n_exp}")
-        replies = C.run_driver("C13", req) if want_driver else _python_exact(req)
+        replies = C.run_driver("C13", req + model_lines) if want_driver else _python_exact(req)
+        if want_driver:
+            for (text, counts), rep in zip(model_want, replies[len(req):]):
+                ctx.count("lean_history_models")
+                if rep.split() != [str(c_) for c_ in counts]:
+                    ctx.broke("correspondence", "construction-history-model",
+                              f"`{text}`: objects carry {counts} nodes, the model (builtCounts) says {rep}")
+            replies = replies[:len(req)]
         code_fns = (lambda mm, s_: mm * s_ + 1, lambda mm, s_: (1 - mm) * s_ + 1)
         for job, rep in zip(jobs, replies):
             N, m, v, kind = job["N"], job["m"], job["v"], job["kind"]
